@@ -95,20 +95,20 @@ def run(unit):
                 exp = ('ok', inter) if inter else ('TypeError',)
                 r.outcomes['cast:' + got[0] + ':' + str(len(got[1]) if got[0] == 'ok' else '')] += 1
                 if got != exp:
-                    r.violation(f'cast({_w(a)},{_w(b)}) wrong', {'op': 'cast', 'a': _w(a), 'b': _w(b)}, f'expected {exp}, got {got}')
+                    r.violation('cast: ' + ('a disjoint pair does not raise TypeError' if not inter else 'wrong result for an overlapping pair'), {'op': 'cast', 'a': _w(a), 'b': _w(b)}, f'cast({_w(a)}, {_w(b)}): expected {exp}, got {got}', size=len(a) + len(b))
                 try:
                     cb = A.can_be(B)
                 except Exception as e:  # noqa: BLE001
                     cb = type(e).__name__
                 if cb is not bool(inter):
-                    r.violation(f'can_be({_w(a)},{_w(b)}) wrong', {'op': 'can_be', 'a': _w(a), 'b': _w(b)}, f'expected {bool(inter)}, got {cb!r}')
+                    r.violation('can_be is not non-empty intersection', {'op': 'can_be', 'a': _w(a), 'b': _w(b)}, f'can_be({_w(a)}, {_w(b)}): expected {bool(inter)}, got {cb!r}', size=len(a) + len(b))
                 try:
                     u = to_model(DataType.union([A, B]))
                     u2 = to_model(DataType.union(iter((A, B))))
                 except Exception as e:  # noqa: BLE001
                     u = u2 = type(e).__name__
                 if u != (a | b) or u2 != (a | b):
-                    r.violation(f'union([{_w(a)},{_w(b)}]) wrong', {'op': 'union', 'sets': [_w(a), _w(b)]}, f'expected {_w(a | b)}, got {u}')
+                    r.violation('union of two is not the least upper bound', {'op': 'union', 'sets': [_w(a), _w(b)]}, f'union([{_w(a)}, {_w(b)}]): expected {_w(a | b)}, got {u}', size=len(a) + len(b))
                 if i == 3 and j in (5, 96):
                     r.sample({'a': _w(a), 'b': _w(b), 'cast': str(got), 'can_be': cb, 'union': _w(u) if isinstance(u, frozenset) else u})
         r.count('states', (hi - lo) * 128)
@@ -127,12 +127,12 @@ def run(unit):
             for prop, n in CAN_BE_PROPS.items():
                 got = getattr(A, prop)
                 if got is not (n in a):
-                    r.violation(f'{prop} wrong on {_w(a)}', {'op': prop, 'a': _w(a)}, f'expected {n in a}, got {got!r}')
+                    r.violation(f'{prop} wrong', {'op': prop, 'a': _w(a)}, f'{prop} on {_w(a)}: expected {n in a}, got {got!r}', size=len(a))
             if to_model(DataType.union([A])) != a:
-                r.violation(f'union([{_w(a)}]) wrong', {'op': 'union', 'sets': [_w(a)]}, 'singleton union')
+                r.violation('union of one set is not that set', {'op': 'union', 'sets': [_w(a)]}, f'union([{_w(a)}])', size=len(a))
             # idempotence
             if a and _cast(DataType, to_model, A, A) != ('ok', a):
-                r.violation(f'cast not idempotent on {_w(a)}', {'op': 'cast', 'a': _w(a), 'b': _w(a)}, 'x.cast(x) != x')
+                r.violation('cast is not idempotent', {'op': 'cast', 'a': _w(a), 'b': _w(a)}, f'x.cast(x) != x for {_w(a)}', size=len(a))
         if to_model(DataType.union([])) != frozenset():
             r.violation('union([]) wrong', {'op': 'union', 'sets': []}, 'empty union is not the empty set')
         r.count('states', 128)
@@ -168,25 +168,25 @@ def run(unit):
                         # both groupings are defined up to the last step: they must agree with the model
                         if left != e or right != e:
                             r.violation(
-                                f'cast not associative on ({_w(a)},{_w(b)},{_w(c)})',
+                                'cast is not associative',
                                 {'op': 'assoc', 'a': _w(a), 'b': _w(b), 'c': _w(c)},
-                                f'expected {e}, got {left} / {right}',
+                                f'({_w(a)}, {_w(b)}, {_w(c)}): expected {e}, got {left} / {right}', size=len(a) + len(b) + len(c),
                             )
                     else:
                         # an empty intermediate intersection: the whole chain fails on at least one grouping,
                         # and the grouping that still has values must agree with the model
                         if not ab and left != ('TypeError',):
-                            r.violation(f'cast chain should fail ({_w(a)},{_w(b)})', {'op': 'assoc', 'a': _w(a), 'b': _w(b), 'c': _w(c)}, f'got {left}')
+                            r.violation('a cast chain through a disjoint pair does not fail', {'op': 'assoc', 'a': _w(a), 'b': _w(b), 'c': _w(c)}, f'({_w(a)} cast {_w(b)}) cast {_w(c)}: got {left}', size=len(a) + len(b) + len(c))
                         if not (b & c) and right != ('TypeError',):
-                            r.violation(f'cast chain should fail ({_w(b)},{_w(c)})', {'op': 'assoc', 'a': _w(a), 'b': _w(b), 'c': _w(c)}, f'got {right}')
+                            r.violation('a cast chain through a disjoint pair does not fail', {'op': 'assoc', 'a': _w(a), 'b': _w(b), 'c': _w(c)}, f'{_w(a)} cast ({_w(b)} cast {_w(c)}): got {right}', size=len(a) + len(b) + len(c))
                         if ab and left != e:
-                            r.violation(f'cast wrong on ({_w(ab)},{_w(c)})', {'op': 'assoc', 'a': _w(a), 'b': _w(b), 'c': _w(c)}, f'expected {e}, got {left}')
+                            r.violation('cast: wrong result in a chain', {'op': 'assoc', 'a': _w(a), 'b': _w(b), 'c': _w(c)}, f'({_w(ab)}) cast {_w(c)}: expected {e}, got {left}', size=len(a) + len(b) + len(c))
                     # monotone: a <= b  =>  a^c <= b^c (and a^c defined => b^c defined)
                     if a <= b and (a & c) and not (b & c):
                         r.violation('model inconsistency', {'op': 'mono'}, 'impossible')
                     u = to_model(DataType.union([A, B, C]))
                     if u != (a | b | c):
-                        r.violation(f'union of three wrong', {'op': 'union', 'sets': [_w(a), _w(b), _w(c)]}, f'got {u}')
+                        r.violation('union of three is not the least upper bound', {'op': 'union', 'sets': [_w(a), _w(b), _w(c)]}, f'union([{_w(a)}, {_w(b)}, {_w(c)}]) = {u}', size=len(a) + len(b) + len(c))
                     r.outcomes['triple:' + left[0] + '/' + right[0]] += 1
         r.count('states', (hi - lo) * 128 * 128)
     return r
